@@ -7,6 +7,7 @@ import (
 	"math"
 	"runtime"
 	"sort"
+	"strings"
 	"sync"
 	"testing"
 	"time"
@@ -498,8 +499,88 @@ func runBlocks(c BlocksCase, o *vh.Obs) *vh.Failure {
 	return nil
 }
 
+// ---------------------------------------------------------------- topologies the scans do not implement
+
+// UnsupCase: the primitive scans implement triangles, points and line strips. For every other
+// topology the sequential ScanPrimitives reports failure (a panic carrying an error, which the caller
+// can recover). The parallel entry point has to have the same observable result; whether it does
+// is decided in a child process, because a panic on one of its worker goroutines ends the program.
+type UnsupCase struct {
+	Topo int
+	Pool int
+	N    int // indices
+}
+
+func unsupMesh(c UnsupCase) modeling.Mesh {
+	idx := make([]int, c.N)
+	pos := make([]vector3.Float64, c.N)
+	for i := range idx {
+		idx[i] = i
+		pos[i] = vector3.New(float64(i), 1, 2)
+	}
+	return modeling.NewMesh(modeling.Topology(c.Topo), idx).SetFloat3Attribute(modeling.PositionAttribute, pos)
+}
+
+func scanOutcome(f func()) (out string) {
+	defer func() {
+		if r := recover(); r != nil {
+			if _, isRuntime := r.(runtime.Error); isRuntime {
+				out = fmt.Sprintf("crash: %v", r)
+				return
+			}
+			out = "reported"
+		}
+	}()
+	f()
+	return "returned"
+}
+
+func runUnsup(c UnsupCase, o *vh.Obs) *vh.Failure {
+	topo := modeling.Topology(c.Topo)
+	o.Class("unsupported/" + topo.String())
+	o.NonTrivial()
+	m := unsupMesh(c)
+	seq := scanOutcome(func() { m.ScanPrimitives(func(i int, p modeling.Primitive) {}) })
+	if seq != "reported" {
+		// the table of implemented topologies changed: this sub-check only speaks about unimplemented ones
+		o.Count("sequential-scan-"+seq, 1)
+		return nil
+	}
+	code, txt := vh.Child("unsup", c, 2*time.Minute)
+	if code == -1 {
+		o.Count("child-not-run", 1)
+		return nil
+	}
+	if code != 0 || !strings.Contains(txt, "CHILD-RESULT reported") {
+		tail := txt
+		if len(tail) > 600 {
+			tail = tail[:600]
+		}
+		return vh.Failf("scan-parallel/unsupported-topology/"+topo.String(), "ScanPrimitives on a %s mesh reports failure (recoverable); ScanPrimitivesParallelWithPoolSize(%d) in a child process: exit %d\n%s", topo.String(), c.Pool, code, tail)
+	}
+	return nil
+}
+
+func TestChild(t *testing.T) {
+	var c UnsupCase
+	if !vh.IsChild("unsup", &c) {
+		return
+	}
+	m := unsupMesh(c)
+	fmt.Println("CHILD-RESULT " + scanOutcome(func() { m.ScanPrimitivesParallelWithPoolSize(c.Pool, func(i int, p modeling.Primitive) {}) }))
+}
+
 func TestC10(t *testing.T) {
 	vh.Drive(t, vh.Spec[ScanCase]{Name: "scan-modify", Quick: 4000, Thorough: 120000, Gen: genScan, Run: runScan})
+	{
+		var cases []UnsupCase
+		for _, topo := range []modeling.Topology{modeling.LineTopology, modeling.LineLoopTopology, modeling.QuadTopology} {
+			for _, pool := range []int{2, 5} {
+				cases = append(cases, UnsupCase{Topo: int(topo), Pool: pool, N: 8})
+			}
+		}
+		vh.Enumerate(t, vh.Spec[UnsupCase]{Name: "unsupported-topology", Run: runUnsup, Deadline: 5 * time.Minute}, cases)
+	}
 	vh.Drive(t, vh.Spec[MarchCase]{Name: "marching", Quick: 6, Thorough: 320, Gen: genMarch, Run: runMarch, Deadline: 3 * time.Minute})
 	if vh.Tier == "thorough" || vh.Replay != "" {
 		// 20+ blocks of 8 MB and 10^6 cube visits each under the race detector: minutes per case
